@@ -425,7 +425,7 @@ func init() {
 	register(&Check{
 		Prop:   "C06",
 		Engine: "seq",
-		Rule:   "operation sequences with Merge (both scan orders as separate symbols) and restarts: every read path is compared with the reference map after every step (Merge never changes a mapping: live, after adoption, after later restarts); after the adopting restart the merge directory must be gone and the merged files must hold exactly the records live at merge time, once each, no tombstones/sealing records. Fault injection: for every sequence of the fault level, each I/O call of Merge fails once (EIO): no mapping change now or after restart, and a Merge that still returns nil must satisfy the reclaim clause. non-trivial = sequences with at least one successful Merge; output shapes (fewer/equal/more files) are counted. The concurrent part (writers racing the scan) is decided by the SCHED scenarios of C08",
+		Rule:   "operation sequences with Merge (both scan orders as separate symbols) and restarts: every read path is compared with the reference map after every step (Merge never changes a mapping: live, after adoption, after later restarts); after the adopting restart the merge directory must be gone and the merged files must hold exactly the records live at merge time, once each, no tombstones/sealing records. Fault injection: for every sequence of the fault level, each I/O call of Merge fails once (EIO): no mapping change now or after restart, and a Merge that still returns nil must satisfy the reclaim clause. non-trivial = sequences with at least one successful Merge; output shapes (fewer/equal/more files) are counted. Concurrent part: Merge || 1-2 writer calls (Put/Delete on merged keys) under the controlled scheduler, all schedules up to the preemption bound (unbounded for Merge || 1 call): linearizable history and quiescent live mapping = mapping after the adopting restart = after the next restart",
 		Assumptions: []string{
 			"Merge's scan order over rotated files is owned by the harness (ascending / descending are distinct symbols)",
 			"fault = the call returns EIO without being performed; one fault per run",
@@ -456,10 +456,31 @@ func init() {
 				}
 				return a
 			}
-			return seqTasks("C06", []seqLevel{
+			tasks := seqTasks("C06", []seqLevel{
 				{Name: fmt.Sprintf("seq-d%db%d", d, b), Cfgs: cfgs, Keys: keysAB, Alpha: c06Alphabet, Depth: d, Dev: b, Run: runC06},
 				{Name: fmt.Sprintf("fault-d%d", fd), Cfgs: []Cfg{defaultCfg, mm}, Keys: keysAB, Alpha: faultAlpha, Depth: fd, Dev: 2, Run: runC06Fault},
 			})
+			// writers racing the merge scan: all schedules of Merge || 1-2 writer calls (same scenarios as C08's
+			// merge shapes, judged here under C06: final live outcome = mapping after the adopting restart and the next)
+			for _, shape := range []string{"merge+1", "merge+2", "merge+1+1"} {
+				pb := -1
+				if shape != "merge+1" {
+					pb = 2
+					if tier == "thorough" {
+						pb = 4
+					}
+				}
+				for _, cfg := range []Cfg{defaultCfg, bt} {
+					for _, iname := range sortedKeys(c08MergeInits) {
+						for si, ts := range c08Shapes(shape) {
+							sc := Scenario{Cfg: cfg, Init: c08MergeInits[iname], Threads: ts}
+							pb := pb
+							tasks = append(tasks, Task{Level: fmt.Sprintf("sched-%s-pb%d", shape, pb), Name: fmt.Sprintf("sched %s #%d %s", shape, si, sc), Fn: func(res *TaskResult) { schedLinRun("C06", sc, pb, res) }})
+						}
+					}
+				}
+			}
+			return tasks
 		},
 		Bounds: func(tier string) map[string]any {
 			if tier == "quick" {
